@@ -480,7 +480,6 @@ func resolveAlong(v ssa.Value, path []*ssa.BasicBlock) ssa.Value {
 	return v
 }
 
-
 // ---- nil-ness of error values along a path -------------------------------------------------
 //
 // Only error-typed values that take part in a phi or live in a local cell are tracked: these are
